@@ -532,7 +532,7 @@ func (r *Runner) Run(steps []Step) bool {
 					opErr = ErrEnd
 					return ErrEnd
 				}
-				if want := Coarsen(s.op(), s.app()); !want[Classify(err)] {
+				if want := Coarsen(s.op(), s.app()); ClassMatters(s.app()) && !want[Classify(err)] {
 					r.viol(at, "wrong-error-class", classOwnersVia(s.op(), s.app(), via, false), fmt.Sprintf("%s %v failed with class %s (%v), model allows %s", s.op(), s.args(), Classify(err), err, keys(want)), nil, "wrong-error-class:"+s.op()+":"+Classify(err)+":"+strings.Join(s.app(), "+"))
 				}
 				opErr = err
